@@ -1,7 +1,7 @@
 """C24 Multipart uploads bind files exactly as mapped and respect limits."""
 import re
 
-from factlib import trace, param_deps, flows_through
+from factlib import trace, param_deps, flows_through, forward
 from common import comparisons, find_aggs
 
 
@@ -73,6 +73,25 @@ def run(F, R):
                 continue
             if mentions(x, a, "max_num_files") or mentions(x, c2, "max_num_files"):
                 cmp_ok = True
+    # Option-combinator form: opts.max_num_files.is_some_and(|n| <count> >= n) feeding a branch
+    for x in fam:
+        for c in x.calls():
+            if not (c.callee and re.search(r"core::option::\{impl#\d+\}::(is_some_and|is_none_or|map_or|filter)$", c.callee)):
+                continue
+            if not mentions(x, c.args[0], "max_num_files"):
+                continue
+            feeds_branch = any(t[1][0] in ("c", "m") and t[1][1] and t[1][1][0] in forward(x, c.dest[0])[0] for _, t in x.switches())
+            for a in c.args[1:]:
+                o, _ = trace(x, a)
+                for k, r in o:
+                    if k == "agg" and r[1] == "closure":
+                        cb = F.get(r[2])
+                        if cb is None:
+                            continue
+                        for (bb, op, l, rr, d, tt, ft) in comparisons(cb):
+                            deps = param_deps(cb, l) | param_deps(cb, rr)
+                            if 2 in deps and feeds_branch:
+                                cmp_ok = True
     R.check(cmp_ok, "R24.1", "max_num_files:never-enforced", b.where(), "max_num_files compared with the file count",
             "max_num_files only scales the whole-stream byte limit (max_file_size * max_num_files); the number of file parts is never compared with it: "
             "any number of small files is accepted")
